@@ -34,6 +34,9 @@ def hfImpl (f k m : Nat) : Nat :=
   | 7 => if k % 4 = 3 then m else modm k m
   | 8 => if k % 4 = 3 then (m + 1) % 2 ^ 64 else modm k m
   | 9 => if k % 4 = 3 then 2 ^ 64 - 1 else modm k m
+  | 10 => k % 8
+  | 11 => if m ≥ 4 then modm k m else (if k % 2 = 1 then m else 0)
+  | 12 => if m ≤ 4 then modm k m else (if k % 4 = 3 then (m + 1) % 2 ^ 64 else modm k m)
   | _ => 0
 
 structure HState where
